@@ -87,7 +87,7 @@ func (fr *frame) raceNote(loc interface{}, write bool, what string) {
 		if pos == "" {
 			pos = fmt.Sprintf("%s:%d", ps.Filename, ps.Line)
 		}
-		if strings.HasPrefix(ps.Filename, "/repo/") {
+		if strings.HasPrefix(ps.Filename, RepoPrefix) {
 			if base := filepath.Base(ps.Filename); strings.HasPrefix(base, "zz_verif") || strings.HasPrefix(base, "zz_gosym") || strings.Contains(ps.Filename, "/testing/") {
 				return // made by harness code or by the repository's test doubles (or by a dependency on their behalf)
 			}
@@ -276,8 +276,11 @@ func protectedPair(a, b raceAccess) bool {
 	return false
 }
 
+// RepoPrefix is the directory of the code under analysis with a trailing slash (set by Load from Config.RepoDir).
+var RepoPrefix = "/repo/"
+
 func shortPos(pos string) string {
-	return strings.TrimPrefix(pos, "/repo/")
+	return strings.TrimPrefix(pos, RepoPrefix)
 }
 
 func (r *raceRec) candidates() []RaceCandidate {
